@@ -659,7 +659,7 @@ impl Scheme for Hyrax {
     type PC = HyraxPCT;
 
     fn keys(k: &KeyRaw, tier: Tier) -> Result<Keys<Self>, String> {
-        let choices = if tier.is_quick() { 5 } else { 7 };
+        let choices = 7; // up to 12 variables in both tiers (64 x 64 matrices; block-wise code paths start there)
         let nv = 2 * pick(k.a, choices);
         let pp = memo(format!("hyrax:{}", nv), || {
             out_to_res(guard(|| HyraxPCT::setup(1, Some(nv), &mut rng(1))), "setup")
